@@ -37,6 +37,7 @@ type Obligation struct {
 	Text      string // source text of the clause
 	Retried   bool
 	Alts      []AltGoal // pieces of the goal (each must be discharged) tried when the whole goal is not
+	Budget    int       // time budget multiplier (0 = 1)
 	Focus     []string  // tag globs: labelled assumptions to keep in the focused attempt (nil: none)
 	useFocus  bool
 	FailedAlt string
@@ -497,6 +498,9 @@ func runSolverCtx(parent context.Context, sc SolverCfg, script string, dir strin
 // Solve discharges the obligation: the whole goal first; if that is not decided and the goal has pieces
 // (a universally quantified conjunction), every piece separately.
 func (o *Obligation) Solve(opts SolveOpts) {
+	if o.Budget > 1 {
+		opts.TimeoutMs *= o.Budget
+	}
 	if len(o.Focus) > 0 && o.Expected == "" {
 		o.useFocus = true
 		o.solveGoal(opts)
